@@ -476,7 +476,7 @@ Definition props_spec (so : val) (h : heap) : Prop :=
       prefix_of m2 m' /\
       ((st = SBDF_OK /\ c_so l' = VCell (List.length h) 0 /\ releasable h h' m' /\ props_end (Z.to_nat v) s3 = Some s' /\ Forall byte s')
        \/ (st < 0 /\ c_so l' = so /\ exists j, h' = h ++ nones j)) /\
-      (k2 < 0 -> st = (if 134217727 <? v then SBDF_ERROR_OUT_OF_MEMORY else props_st (Z.to_nat v) s3)).
+      (k2 < 0 -> st = (if 134217727 <? v then SBDF_ERROR_OUT_OF_MEMORY else props_st (Z.to_nat v) s3) /\ (st = SBDF_OK -> k' = k2)).
 
 Lemma cs_read_gen so k sx h m : Forall byte sx ->
   (forall s1, sec_expect SBDF_COLUMNSLICE_SECTIONID sx = Ok (tt, s1) -> forall t s2, s1 <> 3 :: t :: s2) ->
@@ -489,7 +489,7 @@ Lemma cs_read_gen so k sx h m : Forall byte sx ->
         exists s1 va s2 v s3, sec_expect SBDF_COLUMNSLICE_SECTIONID sx = Ok (tt, s1) /\ Va.va_read false None s1 = Ok (va, s2) /\ read_int32 false s2 = Ok (v, s3) /\ 0 <= v /\
                               props_end (Z.to_nat v) s3 = Some s' /\ Forall byte s')
      \/ (st < 0 /\ c_so l' = so /\ exists j, h' = h ++ nones j)) /\
-    (k < 0 -> st = cs_st sx).
+    (k < 0 -> st = cs_st sx /\ (st = SBDF_OK -> k' = k)).
 Proof.
   intros Hs NB NBP PROPS L. unfold cs_st.
   pose proof (sec_expect_bs2 fv SBDF_COLUMNSLICE_SECTIONID VUndef VUndef k sx h m I Hs ltac:(unfold SBDF_COLUMNSLICE_SECTIONID, int_min, int_max; lia)) as SE.
@@ -497,7 +497,7 @@ Proof.
   2: { (* no column slice section here *)
     destruct SE as (e' & v' & s' & SE).
     assert (Hneg : st0 < 0) by (apply (neg_sec_expect SBDF_COLUMNSLICE_SECTIONID sx st0 ESE)).
-    exists st0. eexists (Build_crl _ _ _ _ _ _ _ _ _ _). do 4 eexists. split; [|split; [exists []; now rewrite app_nil_r|split; [right; split; [exact Hneg|split; [reflexivity|exists 0%nat; cbn; now rewrite app_nil_r]]|intros _; reflexivity]]].
+    exists st0. eexists (Build_crl _ _ _ _ _ _ _ _ _ _). do 4 eexists. split; [|split; [exists []; now rewrite app_nil_r|split; [right; split; [exact Hneg|split; [reflexivity|exists 0%nat; cbn; now rewrite app_nil_r]]|intros _; split; [reflexivity|intros X; unfold SBDF_OK in X; lia]]]].
     apply cs_read_ret. unfold cs_body. cbn [fbody prog_sbdf_cs_read]. uncr.
     eapply bsE_seq; [eapply bsE_decl0; evk; reflexivity|].
     eapply bsE_seq; [eapply bsE_seq; [eapply bsE_decl0; evk; reflexivity|eapply bsE_seq; [eapply bsE_decl0; evk; reflexivity|eapply bsE_decl0; evk; reflexivity]]|].
@@ -563,7 +563,7 @@ Proof.
                   ltac:(unfold hX, h3, L; erewrite cell_set_mid; [reflexivity|lia|reflexivity]) (NTH _ _)) as D.
     unfold h3 in D. rewrite KL in D. unfold fr in D. cbn [app] in D.
     exists st1. eexists (Build_crl _ _ _ _ _ _ _ _ _ _). do 4 eexists. split; [|split; [exact Pf1|split; [right; split; [exact Hneg1|split; [reflexivity|exists (S j); reflexivity]]|]]].
-    2: { intros Hk0. assert (Dk : dec k < 0) by (unfold dec; replace (0 <? k) with false by lia; exact Hk0). specialize (MT1 Dk). destruct (Va.va_read false None s1) as [[xva xs]|eV]; [unfold SBDF_OK in MT1; lia|exact MT1]. }
+    2: { intros Hk0. assert (Dk : dec k < 0) by (unfold dec; replace (0 <? k) with false by lia; exact Hk0). specialize (MT1 Dk). destruct (Va.va_read false None s1) as [[xva xs]|eV]; [unfold SBDF_OK in MT1; lia|split; [exact MT1|intros X; unfold SBDF_OK in X; lia]]. }
     eapply cs_read_brk.
     - unfold cs_body. cbn [fbody prog_sbdf_cs_read]. apply HEAD. apply PRE.
       eapply bsE_seq_brk. eapply bsE_seq; [exact T3|]. uncr. eapply bsE_if; [evk; reflexivity|cbn [truth]; replace (st1 =? 0) with false by lia; reflexivity|apply bsE_break].
@@ -594,7 +594,7 @@ Proof.
   2: { (* the property count cannot be read *)
     destruct R as (c' & s' & R). pose proof (read_int32_err s2 e ER). subst e.
     specialize (DY k2 s'). unfold fr in DY. cbn [app] in DY.
-    exists SBDF_ERROR_IO. eexists (Build_crl _ _ _ _ _ _ _ _ _ _). do 4 eexists. split; [|split; [exact Pf1|split; [right; split; [reflexivity|split; [reflexivity|eexists; reflexivity]]|intros _; reflexivity]]].
+    exists SBDF_ERROR_IO. eexists (Build_crl _ _ _ _ _ _ _ _ _ _). do 4 eexists. split; [|split; [exact Pf1|split; [right; split; [reflexivity|split; [reflexivity|eexists; reflexivity]]|intros _; split; [reflexivity|intros X; cbv in X; discriminate X]]]].
     eapply cs_read_brk.
     - unfold cs_body. cbn [fbody prog_sbdf_cs_read]. apply HEAD. apply PRE.
       eapply bsE_seq; [eapply bsE_seq; [exact T3|uncr; eapply bsE_if; [evk; reflexivity|reflexivity|apply bsE_skip]]|].
@@ -607,7 +607,7 @@ Proof.
   destruct (v <? 0) eqn:Eneg.
   { (* a negative property count *)
     specialize (DY k2 s3). unfold fr in DY. cbn [app] in DY.
-    exists SBDF_ERROR_INVALID_SIZE. eexists (Build_crl _ _ _ _ _ _ _ _ _ _). do 4 eexists. split; [|split; [exact Pf1|split; [right; split; [reflexivity|split; [reflexivity|eexists; reflexivity]]|intros _; reflexivity]]].
+    exists SBDF_ERROR_INVALID_SIZE. eexists (Build_crl _ _ _ _ _ _ _ _ _ _). do 4 eexists. split; [|split; [exact Pf1|split; [right; split; [reflexivity|split; [reflexivity|eexists; reflexivity]]|intros _; split; [reflexivity|intros X; cbv in X; discriminate X]]]].
     eapply cs_read_brk.
     - unfold cs_body. cbn [fbody prog_sbdf_cs_read]. apply HEAD. apply PRE.
       eapply bsE_seq; [eapply bsE_seq; [exact T3|uncr; eapply bsE_if; [evk; reflexivity|reflexivity|apply bsE_skip]]|].
@@ -620,7 +620,7 @@ Proof.
   destruct (v =? 0) eqn:Ez.
   { (* no properties: the slice is handed out *)
   assert (v = 0) by lia. subst v.
-  exists SBDF_OK. eexists (Build_crl _ _ _ _ _ _ _ _ _ _). do 4 eexists. split; [|split; [exact Pf1|split; [left; split; [reflexivity|split; [reflexivity|]]|intros _; reflexivity]]].
+  exists SBDF_OK. eexists (Build_crl _ _ _ _ _ _ _ _ _ _). do 4 eexists. split; [|split; [exact Pf1|split; [left; split; [reflexivity|split; [reflexivity|]]|intros Hk0; split; [reflexivity|intros _; assert (Dk : dec k < 0) by (unfold dec; replace (0 <? k) with false by lia; exact Hk0); rewrite (KK1 Dk eq_refl); unfold dec; replace (0 <? k) with false by lia; reflexivity]]]].
   2: { split.
        - exists (Some slice :: Some blk :: newb). split; [reflexivity|]. split; [cbn [List.length]; lia|]. apply cs_sem_fresh. exact VR.
        - exists s1, va, s2, 0, s3. split; [reflexivity|]. split; [exact MV|]. split; [exact ER|]. split; [lia|]. split; [reflexivity|exact (read_int32_bytes s2 0 s3 Hs2 ER)]. }
@@ -648,7 +648,7 @@ Proof.
     split; [reflexivity|]. split; [exact Ho|]. split; [exact Rl|]. exists s1, va, s2, v, s3. split; [reflexivity|]. split; [exact MV|]. split; [exact ER|]. split; [lia|split; [exact PE|exact PB]].
   - intros Hk0. assert (Dk : dec k < 0) by (unfold dec; replace (0 <? k) with false by lia; exact Hk0).
     assert (Hk2 : k2 = k) by (rewrite (KK1 Dk eq_refl); unfold dec; replace (0 <? k) with false by lia; reflexivity).
-    apply PST. lia.
+    destruct (PST ltac:(lia)) as (P1 & P2). split; [exact P1|intros X; rewrite (P2 X); exact Hk2].
 Qed.
 End Main.
 
